@@ -340,7 +340,8 @@ def splice_module(text, mod_path, fnspecs, gen, twin=False):
             edits.append((it.body_open, it.body_open, spec.lstrip('\n') + '\n    ' if False else spec + '\n    '))
         noiso = [o for o in fs.opts if o.startswith('noiso')]
         if len(noiso) > 1: raise Unsupported(f'{fs.path}: at most one non-isolated loop per function (reachability twins share its query)')
-        if twin and not noiso:
+        hides = any(pt[3].lstrip().startswith('hide(') for pt in fs.proofs)   # `hide(f);` must stay the first statement of the body: no entry twin then (loop twins cover it)
+        if twin and not noiso and not hides:
             # (a function with a non-isolated loop has no entry twin: a failed assert(false) there would be assumed in the
             #  loop's query, which is the same one; the loop-body twin subsumes it)
             tid = 'TWIN:fn:' + fs.path
